@@ -12,13 +12,13 @@ Open Scope string_scope.
    download() file branches, and that Model/XferProg.v interprets.  Anything the translator
    cannot classify becomes XOther / XSOther, on which the interpreter gives no result. *)
 Inductive xsimple : Type :=
-| XSeek (target : string)                 (* await <target>.seek(conn.restart_offset) *)
+| XSeek (target : string)                 (* await <target>.seek(conn.transfer_offset) *)
 | XWrite (target : string)                (* await <target>.write(ITEM) *)
 | XSOther (text : string).
 
 Inductive xstmt : Type :=
 | XDo (s : xsimple)
-| XIfOffset (body : list xsimple)         (* if conn.restart_offset: <body>      (no else) *)
+| XIfOffset (body : list xsimple)         (* if conn.transfer_offset: <body>      (no else) *)
 | XForBlocks (src count : string) (body : list xsimple)
                                           (* async for ITEM in <src>.iter_by_block(<count>): <body>   (no else) *)
 | XOther (text : string).
@@ -38,7 +38,8 @@ Record xfer_facts := {
   xf_stor_open : string;                  (* FILE = <> *)
   xf_retr_open : string;
   xf_rest_body : list string;             (* rest() *)
-  xf_reset_stmt : list string;            (* the dispatcher statement that clears the offset, and what precedes it in its block *)
+  xf_reset_stmt : list string;            (* the dispatcher statements that hand over / clear the offset, and what precedes them in their block *)
+  xf_offset_init : list string;           (* the restart_offset= / transfer_offset= keywords of the dispatcher's Connection(...) *)
   xf_backend_wiring : list string;        (* the assignments of self.path_io_factory (Server.__init__) and connection.path_io (dispatcher): callee and positional arguments *)
   (* common.py *)
   xf_iter_anext : list string;            (* AsyncStreamIterator.__anext__ *)
